@@ -42,12 +42,20 @@ Lemma sd_pick_eq fuel idx r brs i :
      end) brs i = sd_pick fuel idx r brs i.
 Proof. revert i. induction brs as [|x l IH]; intros i; [destruct i; reflexivity|]. destruct i; [reflexivity|]. apply IH. Qed.
 
+Lemma sd_pick_oob fuel idx r : forall l i, (length l <= i)%nat -> sd_pick fuel idx r l i = Err.
+Proof.
+  induction l as [|x l IH]; intros i Hi; [destruct i; reflexivity|].
+  destruct i; [cbn in Hi; lia|]. cbn [sd_pick]. apply IH. cbn in Hi. lia.
+Qed.
+
 Lemma sd_union_eq fuel brs bs :
   sd fuel (SUnion brs) bs =
   obind (rd_varint_canon bs) (fun idx r => if idx <? 0 then Err else sd_pick fuel idx r brs (Z.to_nat idx)).
 Proof.
   cbn [sd]. destruct (rd_varint_canon bs) as [idx r| | |]; cbn [obind]; try reflexivity.
-  destruct (idx <? 0); [reflexivity|]. apply sd_pick_eq.
+  destruct (idx <? 0) eqn:E0; [reflexivity|]. cbn [orb].
+  destruct (Z.of_nat (length brs) <=? idx) eqn:E1; [|apply sd_pick_eq].
+  symmetry. apply sd_pick_oob. lia.
 Qed.
 
 Lemma sd_array_eq fuel it bs :
